@@ -309,7 +309,7 @@ def replay_path(rec):
     path = rec.get("path", "")
     clause = rec.get("clause", "")
     async_ = "run_async" in rec.get("function", "")
-    raising = [p.split(":", 1)[1].rsplit(":", 1)[0] for p in path.split("/") if p.startswith("call:") and p.endswith(":raise")]
+    raising = [p.split(":", 1)[1].rsplit(":", 1)[0] for p in path.split("/") if p.startswith("call:") and (p.endswith(":raise") or p.endswith(":raise-base"))]
     if clause == "exit.job-dir-holds-result-after-execution":
         raising = [r for r in raising if SITE_OF.get(r) in ("hooks.post_run_task", "audit.finalize_audit")] or raising
     site_map = SITE_OF
